@@ -2,7 +2,7 @@
 from verif import Case
 from gen_util import *
 import pyref
-from props.c07 import session_case
+from props.c07 import session_case, step_table_cases
 
 MODULES = ["WowSrp.Props.C08"]
 THEOREMS = []
@@ -25,6 +25,8 @@ def generate(rng, tier):
     if tier == "thorough":
         for i in range(8):
             cs.append(session_case(rng, special_key(rng), rbytes(rng, 1 << 20), "1MiB-stream", "t"))
+    if tier == "thorough":
+        cs += step_table_cases(rng, "t")
     return cs
 
 def nontrivial(case, out):
